@@ -1486,6 +1486,14 @@ class Interp:
             if not -len(base) <= idx < len(base):
                 raise PyRaise("IndexError")
             return base[idx]
+        from .libmodels import DDict, _CStack, cstack
+        if isinstance(base, _CStack):
+            return cstack(self, list(idx) if isinstance(idx, tuple) else [idx])
+        if isinstance(base, DDict) and not is_sym(idx):
+            k = self.hashable(idx.concrete_or_self() if isinstance(idx, SStr) else idx)
+            if k not in base:
+                base[k] = self.call(base.factory, []) if base.factory is not None else None
+            return base[k]
         if isinstance(base, dict):
             if isinstance(idx, SStr):
                 idx = idx.concrete_or_self()
